@@ -348,7 +348,7 @@ def _diff(a, b):
 
 
 FAMILIES = [
-    Family("faults", evaluate, strategy=strategy, n_quick=40, n_thorough=400, shards_quick=4, shards_thorough=16,
+    Family("faults", evaluate, strategy=strategy, n_quick=80, n_thorough=400, shards_quick=4, shards_thorough=16,
            required_labels=["fault-in:check", "fault-in:parser", "fault-in:groupby", "fault-in:dtype"]),
 ]
 
